@@ -408,11 +408,18 @@ def run_rescale(ctx):
     if list(out.rdm_descriptors.get('subj', [])) != [f's{i}' for i in range(n_rdm)]:
         ctx.fail('rescale', dict(sig, aspect='descriptors'), 'rdm descriptors lost', wit())
     if proportional:
-        # mutually proportional partial RDMs coincide on common pairs afterwards
+        # mutually proportional partial RDMs coincide on common pairs afterwards.  rescale iterates until the squared
+        # change between iterations is below `threshold` (default 1e-8); the distance to the fixed point is then up
+        # to ~50 * sqrt(threshold) (measured: 5.5e-3 at the default, 5e-11 at 1e-24), so this clause is decided with a
+        # tight threshold where the remaining error is far below the tolerance
+        ok2, out2 = ctx.guarded('rescale', sig, rescale, rd, method, threshold=1e-20, data=wit)
+        if not ok2:
+            return
+        got = out2.dissimilarities
         for i in range(n_rdm):
             for j in range(i + 1, n_rdm):
                 both = ~np.isnan(a[i]) & ~np.isnan(a[j])
-                if both.any() and not close(got[i, both], got[j, both], 1e-3, 1e-6):
+                if both.any() and not close(got[i, both], got[j, both], 1e-6, 1e-9):
                     ctx.fail('rescale', sig, f'proportional partial RDMs {i},{j} not on a common scale after '
                              f'rescaling: maxdiff {maxdiff(got[i, both], got[j, both])}', wit(got=got))
                     return
